@@ -337,6 +337,29 @@ CHECKS["C16"] = (
     "bounded-exhaustive input + operation-sequence enumeration vs "
     "reference model")
 
+CHECKS["C12"] = (
+    "4/C12",
+    "Deviation-bounded product over model kind (11: scaling prior/fixed, "
+    "counting calc_func, LimitOverlaps fractions, shared radius prior, "
+    "fitted lens angle, medium-index parameter) x noise source (9) x optics "
+    "source (4) x prior-kind pattern x data kind (grid / flat pixel subset "
+    "/ noisy); for each configuration every parameter takes {guess, lower "
+    "bound, upper bound, 1 ulp outside each, interior, far outside / "
+    "invalid scatterer / constraint boundary} (full product for small "
+    "models): lnprior = closed-form sum, -inf exactly when outside support "
+    "/ invalid / constraint violated AND the forward-calculation counter "
+    "does not move, lnposterior = lnprior + lnlike, lnlike = Gaussian "
+    "log-density of the residuals with the applicable noise, forward() "
+    "bit-identical to the public calc_holo on substituted objects, "
+    "LnpostWrapper; environment enumeration: every ordered k-selection of "
+    "a 2x2 (2x3) image through a scripted numpy.random.choice for the "
+    "pixels=k path.",
+    "Trusted: closed-form densities written in the check; the counting "
+    "seams (calc_func and the module attribute calc_holo).  Not a full "
+    "product over configuration axes (deviation bound 2).",
+    "bounded-exhaustive input + scripted-environment enumeration vs "
+    "closed-form reference model")
+
 NOT_YET = {}
 
 
